@@ -210,6 +210,18 @@ def polarity_trees(mb: ModelBuilder, op: str, negation: bool = True) -> list[tup
     return out
 
 
+def lookalike_values_model(mb: ModelBuilder) -> AObj:
+    """The same attribute names on several features, with values that compare equal in Python but are of different kinds
+    (True == 1 == 1.0, False == 0 == 0.0) or look alike as text ('1'): a table keyed by (name, value) merges them."""
+    root = mb.feature("Root")
+    for i, (cost, level) in enumerate(((True, 0), (1, False), (1.0, 0.0), ("1", "0"), (1, 0))):
+        f = mb.feature(f"F{i}")
+        mb.relation(root, [f], 0, 1)
+        f._f["attributes"].append(mb.attribute("cost", cost, f))
+        f._f["attributes"].append(mb.attribute("level", level, f))
+    return mb.model(root, [])
+
+
 def stress_trees(mb: ModelBuilder) -> list[tuple[str, AObj]]:
     """Constraint shapes that stress normal-form conversions: disjunctions of conjunctions with a
     feature in both polarities (tautological clauses after distribution), xor written with and/or/not,
